@@ -54,9 +54,21 @@ class ClsRef:
         return self.name
 
 
+class LambdaVal:
+    """a lambda together with the environment it was written in (it is evaluated there when it is called)"""
+    def __init__(self, node, env):
+        self.node, self.env = node, env
+
+    def __repr__(self):
+        return "<lambda>"
+
+
 class _Raise(Exception):
     def __init__(self, text):
         self.text = text
+
+
+_MISSING = object()
 
 
 def truth(v):
@@ -71,7 +83,7 @@ def truth(v):
 
 
 def show(v):
-    if isinstance(v, (Obj, Desc, ClsRef)):
+    if isinstance(v, (Obj, Desc, ClsRef, LambdaVal)):
         return repr(v)
     if isinstance(v, (list, tuple)) and any(isinstance(x, (Obj, Desc)) for x in v):
         return "[%s]" % ", ".join(show(x) for x in v)
@@ -167,6 +179,23 @@ def run_concrete(stmts, env, events, notes, depth=0, workers=(), resolver=None, 
             except NotConst:
                 pass
             f = e.func
+            if isinstance(f, ast.Name) and isinstance(env.get(f.id), LambdaVal):
+                lam = env[f.id]
+                avals, kvals = values(e)
+                denv = lam.env
+                saved_ = {a_.arg: denv.get(a_.arg, _MISSING) for a_ in lam.node.args.args}
+                for a_, v_ in zip(lam.node.args.args, avals):
+                    denv[a_.arg] = v_
+                r_ = run_concrete([ast.Return(value=lam.node.body)], denv, events, notes, depth + 1, workers, resolver, hooks, functions)
+                out_ = denv.pop("$return", None)
+                for k_, v_ in saved_.items():
+                    if v_ is _MISSING:
+                        denv.pop(k_, None)
+                    else:
+                        denv[k_] = v_
+                if r_ and r_.startswith("raise"):
+                    raise _Raise(r_)
+                return out_
             if isinstance(f, ast.Name) and f.id in env and not isinstance(env[f.id], ClsRef):
                 raise NotConst("call of %s" % f.id)
             if isinstance(f, ast.Name) and isinstance(env.get(f.id), ClsRef):
@@ -217,6 +246,9 @@ def run_concrete(stmts, env, events, notes, depth=0, workers=(), resolver=None, 
                 if isinstance(r, Obj) and ("*", f.attr) in hooks:
                     h = hooks[("*", f.attr)]
                     return h(r, avals) if callable(h) else h
+                if isinstance(r, Obj) and ("*", "*") in hooks:
+                    # dynamic dispatch supplied by the rule: (object, method name, argument values) -> value
+                    return hooks[("*", "*")](r, f.attr, avals)
                 if isinstance(r, ClsRef):
                     # a factory / helper called on a class the evaluator models, and not interpreted: what it builds is not in the trace
                     _note("call of %s.%s not expanded" % (r.name, f.attr))
@@ -266,7 +298,9 @@ def run_concrete(stmts, env, events, notes, depth=0, workers=(), resolver=None, 
                     return all(truths) if f.id == "all" else any(truths)
                 args = [show(a) for a in avals] + ["%s=%s" % (k, show(v)) for k, v in kvals.items()]
                 return Desc("%s(%s)" % (f.id, ", ".join(args)))
-        if isinstance(e, ast.Name) and isinstance(env.get(e.id), (Obj, ClsRef, Desc, list, tuple)):
+        if isinstance(e, ast.Lambda):
+            return LambdaVal(e, env)
+        if isinstance(e, ast.Name) and isinstance(env.get(e.id), (Obj, ClsRef, Desc, list, tuple, LambdaVal)):
             return env[e.id]
         if isinstance(e, ast.Attribute):
             if U(e) in env:
